@@ -376,6 +376,11 @@ def rule_f(ctx):
 def run(ctx):
     rule_f(ctx)
     ctx.consult(MOD)
+    from .common import rule_abs_tolerance
+    _m = ctx.model
+    rule_abs_tolerance(ctx, "C06.g", list(_m.mod(MOD).funcs.values()) + [f for k in _m.mod(MOD).classes.values() for f in k.methods.values()]
+                       + [f for k in _m.mod("darsia.utils.grid").classes.values() for f in k.methods.values()],
+                       "the discrete operators are linear: averages, divergences and reconstructions of a rescaled field are the rescaled results")
     rule_a(ctx)
     rule_b(ctx)
     rule_c(ctx)
